@@ -9,10 +9,11 @@ type scope struct {
 	n     int
 }
 
-// keys under which a loop's scope records its limit and index variables.
+// keys under which a loop's scope records its index variable and the JS test
+// for its last iteration.
 // ("$" cannot occur in a Soy variable name, so they cannot clash with one.)
 const (
-	loopLimitKey = "$limit:"
+	loopLastKey  = "$last:"
 	loopIndexKey = "$index:"
 )
 
@@ -61,18 +62,21 @@ func (s *scope) lookup(varname string) string {
 	return ""
 }
 
-func (s *scope) pushForRange(loopVar string) (lVar, lLimit string) {
+func (s *scope) pushForRange(loopVar string) (lVar, lLimit, lStep, lIndex string) {
 	s.n++
 	var (
 		lv    = jsname(loopVar, "", s.n)
 		limit = jsname(loopVar, "Limit", s.n)
+		step  = jsname(loopVar, "Step", s.n)
+		index = jsname(loopVar, "Index", s.n)
 	)
 	s.stack = append(s.stack, map[string]string{
 		loopVar:                lv,
-		loopLimitKey + loopVar: limit,
-		loopIndexKey + loopVar: lv,
+		loopIndexKey + loopVar: index,
+		// the iteration is the last one when the next value reaches the limit.
+		loopLastKey + loopVar: "(" + lv + " + " + step + " >= " + limit + ")",
 	})
-	return lv, limit
+	return lv, limit, step, index
 }
 
 func (s *scope) pushForEach(loopVar string) (lVar, lList, lLen, lIndex string) {
@@ -85,16 +89,16 @@ func (s *scope) pushForEach(loopVar string) (lVar, lList, lLen, lIndex string) {
 	)
 	s.stack = append(s.stack, map[string]string{
 		loopVar:                lv,
-		loopLimitKey + loopVar: limit,
 		loopIndexKey + loopVar: index,
+		loopLastKey + loopVar:  "(" + index + " == " + limit + " - 1)",
 	})
 	return lv, list, limit, index
 }
 
-// looplimit returns the JS variable name for the limit of the (innermost)
-// loop over the given loop variable.
-func (s *scope) looplimit(loopVar string) string {
-	return s.lookup(loopLimitKey + loopVar)
+// looplast returns the JS expression that is true in the last iteration of
+// the (innermost) loop over the given loop variable.
+func (s *scope) looplast(loopVar string) string {
+	return s.lookup(loopLastKey + loopVar)
 }
 
 // loopindex returns the JS variable name for the index of the (innermost)
